@@ -32,10 +32,20 @@ int carquet_gzip_compress(const uint8_t*, size_t, uint8_t*, size_t, size_t*, int
 int carquet_zstd_compress(const uint8_t*, size_t, uint8_t*, size_t, size_t*, int); int carquet_zstd_decompress(const uint8_t*, size_t, uint8_t*, size_t, size_t*); size_t carquet_zstd_compress_bound(size_t);
 
 static vrng_t R; static const char* FAM = "?"; static const char* CUR = "?";
-static void over(const char* what, const char* fmt, ...) { char key[128], d[512]; va_list ap; va_start(ap, fmt); vsnprintf(d, sizeof d, fmt, ap); va_end(ap); snprintf(key, sizeof key, "decoder:%s:%s", what, CUR); v_viol(key, "%s", d); }
+/* libFuzzer stage (drivers/fz_decoders.c): FZ_ON makes every input source return the fuzzer's payload; SEED_DIR (mode "seeds")
+ * dumps the valid encodings the families build, prefixed with the 4 bytes [family, 24-bit parameter seed] the fuzz target expects */
+static int FZ_ON = 0; static const uint8_t* FZD = NULL; static size_t FZN = 0; static const char* SEED_DIR = NULL; static int CUR_FAMID = 0; static uint32_t CUR_PS = 0; static uint32_t PS_CTR = 1; static long SEEDS_DUMPED = 0;
+static void iter_begin(void) { if (SEED_DIR) { CUR_PS = (PS_CTR++ * 2654435761u) & 0xFFFFFFu; vrng_seed(&R, CUR_PS); } }
+static void over(const char* what, const char* fmt, ...) { char key[128], d[512]; va_list ap; va_start(ap, fmt); vsnprintf(d, sizeof d, fmt, ap); va_end(ap); snprintf(key, sizeof key, "decoder:%s:%s", what, CUR); v_viol(key, "%s", d);
+#ifdef FZ_MODE
+    fprintf(stderr, "API-CONTRACT %s %s\n", key, d); abort();
+#endif
+}
 
 /* ---- mutation of a seed buffer; returns exact-size heap block ---------------------------------------------- */
 static uint8_t* mutate(const uint8_t* seed, size_t n, size_t* out_n) {
+    if (FZ_ON) { uint8_t* fb = v_exact(FZN); if (FZN) memcpy(fb, FZD, FZN); *out_n = FZN; return fb; }
+    if (SEED_DIR && n <= 60000 && SEEDS_DUMPED < 4000) { char pth[600]; snprintf(pth, sizeof pth, "%s/f%02d_%06x_%ld", SEED_DIR, CUR_FAMID, CUR_PS, SEEDS_DUMPED++); FILE* sf = fopen(pth, "wb"); if (sf) { uint8_t pre[4] = {(uint8_t)CUR_FAMID, (uint8_t)CUR_PS, (uint8_t)(CUR_PS >> 8), (uint8_t)(CUR_PS >> 16)}; fwrite(pre, 1, 4, sf); if (n) fwrite(seed, 1, n, sf); fclose(sf); } }
     int kind = (int)vrng_below(&R, 9); size_t m = n; uint8_t* b;
     if (kind == 0 && n) { m = vrng_below(&R, n); }                                   /* truncate */
     else if (kind == 1) { m = n + 1 + vrng_below(&R, 16); }                           /* extend */
@@ -51,10 +61,10 @@ static uint8_t* mutate(const uint8_t* seed, size_t n, size_t* out_n) {
     default: break; }
     *out_n = m; return b;
 }
-static uint8_t* random_bytes(size_t* out_n) { size_t n = vrng_chance(&R, 1, 10) ? vrng_below(&R, 4000) : vrng_below(&R, 64); uint8_t* b = v_exact(n); vrng_bytes(&R, b, n); if (n && vrng_chance(&R, 1, 3)) for (size_t i = 0; i < n; i++) b[i] &= (uint8_t)(vrng_chance(&R, 1, 2) ? 0x0F : 0x8F); *out_n = n; return b; }
+static uint8_t* random_bytes(size_t* out_n) { if (FZ_ON) { uint8_t* fb = v_exact(FZN); if (FZN) memcpy(fb, FZD, FZN); *out_n = FZN; return fb; } size_t n = vrng_chance(&R, 1, 10) ? vrng_below(&R, 4000) : vrng_below(&R, 64); uint8_t* b = v_exact(n); vrng_bytes(&R, b, n); if (n && vrng_chance(&R, 1, 3)) for (size_t i = 0; i < n; i++) b[i] &= (uint8_t)(vrng_chance(&R, 1, 2) ? 0x0F : 0x8F); *out_n = n; return b; }
 static int rnd_width(void) { int c = (int)vrng_below(&R, 10); return c < 6 ? (int)vrng_below(&R, 33) : c < 8 ? 33 + (int)vrng_below(&R, 32) : (int)vrng_below(&R, 256); }
 static int64_t rnd_count(void) { static const int64_t cs[] = {0, 1, 7, 8, 9, 15, 16, 17, 63, 64, 65, 127, 128, 129, 1000}; return vrng_chance(&R, 1, 50) ? (int64_t)vrng_below(&R, 200000) : cs[vrng_below(&R, 15)]; }
-static void leak_check(int64_t i) { if (i % 20000 == 19999) { if (__lsan_do_recoverable_leak_check()) over("leak-after-failure", "recoverable leak check fired at iteration %lld", (long long)i); } }
+static void leak_check(int64_t i) { if (FZ_ON) return; if (i % 20000 == 19999) { if (__lsan_do_recoverable_leak_check()) over("leak-after-failure", "recoverable leak check fired at iteration %lld", (long long)i); } }
 
 /* ---- families ------------------------------------------------------------------------------------------------ */
 /* unknown field (id 200) holding containers nested until the buffer is full; every level is a struct, list, set or map drawn
@@ -74,7 +84,7 @@ static void fam_thrift(int64_t iters) {
         parquet_column_chunk_t cc[2]; memset(cc, 0, sizeof cc); carquet_encoding_t encs[2] = {CARQUET_ENCODING_PLAIN, CARQUET_ENCODING_RLE}; char* path0[1] = {"a"}; char* path1[1] = {"b"}; for (int i = 0; i < 2; i++) { cc[i].has_metadata = 1; cc[i].metadata.type = se[i + 1].type; cc[i].metadata.encodings = encs; cc[i].metadata.num_encodings = 2; cc[i].metadata.path_in_schema = i ? path1 : path0; cc[i].metadata.path_len = 1; cc[i].metadata.num_values = 10; cc[i].metadata.data_page_offset = 4 + 100 * i; cc[i].metadata.total_compressed_size = 100; cc[i].metadata.has_statistics = 1; cc[i].metadata.statistics.has_null_count = 1; cc[i].metadata.statistics.min_value = (uint8_t*)"ab"; cc[i].metadata.statistics.min_value_len = 2; cc[i].metadata.statistics.max_value = (uint8_t*)"zz"; cc[i].metadata.statistics.max_value_len = 2; }
         parquet_row_group_t rg; memset(&rg, 0, sizeof rg); rg.columns = cc; rg.num_columns = 2; rg.num_rows = 10; parquet_key_value_t kv = {"k", "v"}; m.version = 2; m.schema = se; m.num_schema_elements = 3; m.num_rows = 10; m.row_groups = &rg; m.num_row_groups = 1; m.key_value_metadata = &kv; m.num_key_value = 1; m.created_by = "c08"; (void)parquet_write_file_metadata(&m, &fm, NULL); }
     carquet_buffer_t ph; carquet_buffer_init(&ph); { parquet_page_header_t h; memset(&h, 0, sizeof h); h.type = CARQUET_PAGE_DATA; h.uncompressed_page_size = 100; h.compressed_page_size = 90; h.has_crc = 1; h.crc = 12345; h.data_page_header.num_values = 10; h.data_page_header.has_statistics = 1; h.data_page_header.statistics.has_null_count = 1; (void)parquet_write_page_header(&h, &ph, NULL); }
-    for (int64_t i = 0; i < iters; i++) { size_t n; uint8_t* in; int src = (int)(i % 3); int which = (int)vrng_below(&R, 2); CUR = which ? "parse_page_header" : "parse_file_metadata";
+    for (int64_t i = 0; i < iters; i++) { iter_begin(); size_t n; uint8_t* in; int src = (int)(i % 3); int which = (int)vrng_below(&R, 2); CUR = which ? "parse_page_header" : "parse_file_metadata";
         if (src == 0) in = mutate(which ? ph.data : fm.data, which ? ph.size : fm.size, &n); else if (src == 1) in = random_bytes(&n);
         else { /* grammar: deep nesting of unknown structs/lists, huge counts */ n = 8 + vrng_below(&R, 3000); if (i % 3000 == 2) { n = 200000 + vrng_below(&R, 3000000); v_count("deep_nesting_inputs"); } in = v_exact(n); int g = (int)vrng_below(&R, 9); if (g >= 5) { gen_nest(in, n, g == 5 ? 8u : g == 6 ? 4u : g == 7 ? 10u : (unsigned)vrng_below(&R, 16)); v_count("mixed_container_nesting_inputs"); } else for (size_t k = 0; k < n; k++) in[k] = g == 0 ? 0x1C : g == 1 ? 0x19 : g == 2 ? 0xF9 : g == 3 ? 0x2C : (uint8_t)(0x10 | (k & 0xF)); if (g == 2 && n > 6) { in[0] = 0x19; in[1] = 0xFC; in[2] = 0xFF; in[3] = 0xFF; in[4] = 0xFF; in[5] = 0x0F; } }
         v_case(v_hash(in, n, (uint64_t)which));
@@ -88,7 +98,7 @@ static void fam_thrift(int64_t iters) {
 }
 
 static void fam_rle(int64_t iters) {
-    for (int64_t i = 0; i < iters; i++) { int w = rnd_width(); int64_t count = rnd_count(); size_t n; uint8_t* in; int src = (int)(i % 3);
+    for (int64_t i = 0; i < iters; i++) { iter_begin(); int w = rnd_width(); int64_t count = rnd_count(); size_t n; uint8_t* in; int src = (int)(i % 3);
         if (src == 0) { int vw = w > 32 ? 32 : w; int64_t nv = 1 + (int64_t)vrng_below(&R, 200); uint32_t* v = v_exact((size_t)nv * 4); uint32_t top = vw >= 32 ? 0xFFFFFFFFu : ((1u << vw) - 1); for (int64_t k = 0; k < nv; k++) v[k] = vrng_chance(&R, 1, 3) && k ? v[k - 1] : ((uint32_t)vrng_u64(&R) & top); carquet_buffer_t b; carquet_buffer_init(&b); (void)carquet_rle_encode_all(v, nv, vw, &b); in = mutate(b.data, b.size, &n); if (vrng_chance(&R, 1, 2)) w = vw; carquet_buffer_destroy(&b); free(v); }
         else if (src == 1) in = random_bytes(&n);
         else { /* grammar: hostile run headers */ n = 1 + vrng_below(&R, 40); in = v_exact(n); vrng_bytes(&R, in, n); int g = (int)vrng_below(&R, 4); if (g == 0) { for (size_t k = 0; k < n && k < 5; k++) in[k] = 0xFF; } else if (g == 1) { in[0] = 0xFE; if (n > 4) { in[1] = 0xFF; in[2] = 0xFF; in[3] = 0xFF; in[4] = 0x0F; } } else if (g == 2) { in[0] = (uint8_t)((vrng_below(&R, 60) << 1) | 1); } else in[0] = 0; }
@@ -101,12 +111,12 @@ static void fam_rle(int64_t iters) {
 }
 
 static void fam_bitpack(int64_t iters) { CUR = "bitunpack_32";
-    for (int64_t i = 0; i < iters; i++) { int w = (int)vrng_below(&R, 33); size_t count = (size_t)vrng_below(&R, 70); size_t n = carquet_packed_size(count, w); uint8_t* in = v_exact(n); vrng_bytes(&R, in, n); uint32_t* out = v_exact(count * 4);
+    for (int64_t i = 0; i < iters; i++) { iter_begin(); int w = (int)vrng_below(&R, 33); size_t count = (size_t)vrng_below(&R, 70); size_t n = carquet_packed_size(count, w); uint8_t* in = v_exact(n); vrng_bytes(&R, in, n); uint32_t* out = v_exact(count * 4);
         v_case(v_hash(in, n, (uint64_t)w * 100 + count)); size_t used = carquet_bitunpack_32(in, count, w, out); if (used > n) over("reported-size-exceeds-input", "w=%d count=%zu used=%zu n=%zu", w, count, used, n); free(out); free(in); if (count % 8) v_count("bitunpack_counts_not_multiple_of_8"); }
 }
 
 static void fam_plain(int64_t iters) {
-    for (int64_t i = 0; i < iters; i++) { int type = (int)vrng_below(&R, 8); int32_t tl = type == 7 ? (vrng_chance(&R, 1, 10) ? (int32_t)vrng_u64(&R) : 1 + (int32_t)vrng_below(&R, 40)) : 0; int64_t count = rnd_count(); if (count > 5000) count = 5000; size_t n; uint8_t* in;
+    for (int64_t i = 0; i < iters; i++) { iter_begin(); int type = (int)vrng_below(&R, 8); int32_t tl = type == 7 ? (vrng_chance(&R, 1, 10) ? (int32_t)vrng_u64(&R) : 1 + (int32_t)vrng_below(&R, 40)) : 0; int64_t count = rnd_count(); if (count > 5000) count = 5000; size_t n; uint8_t* in;
         if (i % 2) in = random_bytes(&n); else { /* valid-ish: sized for the count, then mutated */ size_t es = type == 0 ? 1 : type == 1 || type == 4 ? 4 : type == 3 ? 12 : type == 7 ? (tl > 0 && tl < 64 ? (size_t)tl : 4) : 8; size_t sz = type == 0 ? (size_t)(count + 7) / 8 : (size_t)count * es; uint8_t* s = v_exact(sz); vrng_bytes(&R, s, sz); if (type == 6) for (size_t k = 0; k + 4 <= sz; k += 4 + (s[k] & 7)) { s[k] &= 7; s[k + 1] = s[k + 2] = s[k + 3] = 0; } in = mutate(s, sz, &n); free(s); }
         size_t oes = type == 0 ? 1 : type == 1 || type == 4 ? 4 : type == 3 ? 12 : type == 6 ? sizeof(carquet_byte_array_t) : type == 7 ? (tl > 0 && tl <= 4096 ? (size_t)tl : 0) : 8; CUR = "decode_plain"; v_case(v_hash(in, n, (uint64_t)type * 1000 + (uint64_t)count));
         if (type == 7 && oes == 0) { /* no caller buffer can exist for this type_length: the call must still be safe with a NULL-sized request */ uint8_t* out = v_exact(1); int64_t used = carquet_decode_plain(in, n, (carquet_physical_type_t)type, tl, out, 0); (void)used; free(out); }
@@ -116,7 +126,7 @@ static void fam_plain(int64_t iters) {
 }
 
 static void fam_delta(int64_t iters) {
-    for (int64_t i = 0; i < iters; i++) { int is64 = (int)vrng_below(&R, 2); int32_t count = (int32_t)rnd_count(); if (count > 20000) count = 20000; size_t n; uint8_t* in; int src = (int)(i % 3);
+    for (int64_t i = 0; i < iters; i++) { iter_begin(); int is64 = (int)vrng_below(&R, 2); int32_t count = (int32_t)rnd_count(); if (count > 20000) count = 20000; size_t n; uint8_t* in; int src = (int)(i % 3);
         if (src == 0) { int32_t nv = 1 + (int32_t)vrng_below(&R, 300); size_t cap = (size_t)nv * 12 + 2000; uint8_t* e = v_exact(cap); size_t w = 0; if (is64) { int64_t* v = v_exact((size_t)nv * 8); for (int k = 0; k < nv; k++) v[k] = vrng_chance(&R, 1, 2) ? (int64_t)vrng_u64(&R) : k; (void)carquet_delta_encode_int64(v, nv, e, cap, &w); free(v); } else { int32_t* v = v_exact((size_t)nv * 4); for (int k = 0; k < nv; k++) v[k] = vrng_chance(&R, 1, 2) ? (int32_t)vrng_u64(&R) : k * 3; (void)carquet_delta_encode_int32(v, nv, e, cap, &w); free(v); } in = mutate(e, w, &n); free(e); if (vrng_chance(&R, 1, 2)) count = nv; }
         else if (src == 1) in = random_bytes(&n);
         else { /* grammar: header fields with hostile values */ n = 4 + vrng_below(&R, 60); in = v_exact(n); vrng_bytes(&R, in, n); int g = (int)vrng_below(&R, 5); size_t p = 0; static const uint8_t bs128[] = {0x80, 0x01}; if (g < 4 && n > 8) { memcpy(in, bs128, 2); p = 2; in[p++] = (uint8_t)(g == 0 ? 4 : g == 1 ? 0 : g == 2 ? 0x7F : 1); in[p++] = (uint8_t)(g == 3 ? 0xFF : 10); } if (n > 12) { in[8] = (uint8_t)(vrng_chance(&R, 1, 2) ? 255 : 64); in[9] = 65; } }
@@ -127,7 +137,7 @@ static void fam_delta(int64_t iters) {
 }
 
 static void fam_dstr(int64_t iters) {
-    for (int64_t i = 0; i < iters; i++) { int which = (int)vrng_below(&R, 2); int32_t count = (int32_t)rnd_count(); if (count > 5000) count = 5000; size_t n; uint8_t* in; size_t work_n = vrng_chance(&R, 1, 4) ? vrng_below(&R, 64) : 4096;
+    for (int64_t i = 0; i < iters; i++) { iter_begin(); int which = (int)vrng_below(&R, 2); int32_t count = (int32_t)rnd_count(); if (count > 5000) count = 5000; size_t n; uint8_t* in; size_t work_n = vrng_chance(&R, 1, 4) ? vrng_below(&R, 64) : 4096;
         if (i % 2 == 0) { int32_t nv = 1 + (int32_t)vrng_below(&R, 60); carquet_byte_array_t* a = v_exact((size_t)nv * sizeof *a); size_t tot = 0; for (int k = 0; k < nv; k++) { a[k].length = (int32_t)vrng_below(&R, 12); a[k].data = v_exact((size_t)a[k].length); for (int j = 0; j < a[k].length; j++) a[k].data[j] = (uint8_t)('a' + vrng_below(&R, 3)); tot += (size_t)a[k].length; } carquet_buffer_t b; carquet_buffer_init(&b); if (which) (void)carquet_delta_strings_encode(a, nv, &b); else (void)carquet_delta_length_encode(a, nv, &b); in = mutate(b.data, b.size, &n); if (vrng_chance(&R, 1, 2)) { count = nv; work_n = tot; } carquet_buffer_destroy(&b); for (int k = 0; k < nv; k++) free(a[k].data); free(a); }
         else in = random_bytes(&n);
         CUR = which ? "delta_strings_decode" : "delta_length_decode"; v_case(v_hash(in, n, (uint64_t)count * 2 + (uint64_t)which)); carquet_byte_array_t* out = v_exact((size_t)count * sizeof *out); uint8_t* work = v_exact(work_n); size_t used = 0;
@@ -137,14 +147,14 @@ static void fam_dstr(int64_t iters) {
 }
 
 static void fam_bss(int64_t iters) {
-    for (int64_t i = 0; i < iters; i++) { int which = (int)vrng_below(&R, 3); int64_t count = rnd_count(); if (count > 3000) count = 3000; int32_t tl = which == 2 ? (vrng_chance(&R, 1, 8) ? (int32_t)vrng_u64(&R) : 1 + (int32_t)vrng_below(&R, 40)) : 0; size_t w = which == 0 ? 4 : which == 1 ? 8 : (tl > 0 && tl <= 64 ? (size_t)tl : 1);
+    for (int64_t i = 0; i < iters; i++) { iter_begin(); int which = (int)vrng_below(&R, 3); int64_t count = rnd_count(); if (count > 3000) count = 3000; int32_t tl = which == 2 ? (vrng_chance(&R, 1, 8) ? (int32_t)vrng_u64(&R) : 1 + (int32_t)vrng_below(&R, 40)) : 0; size_t w = which == 0 ? 4 : which == 1 ? 8 : (tl > 0 && tl <= 64 ? (size_t)tl : 1);
         size_t n = vrng_chance(&R, 1, 2) ? (size_t)count * w : vrng_below(&R, (uint64_t)count * w + 9); uint8_t* in = v_exact(n); vrng_bytes(&R, in, n); uint8_t* out = v_exact((size_t)count * w); CUR = which == 0 ? "bss_decode_float" : which == 1 ? "bss_decode_double" : "bss_decode"; v_case(v_hash(in, n < 64 ? n : 64, (uint64_t)count * 3 + (uint64_t)which + (uint64_t)n * 7919));
         carquet_status_t st = which == 0 ? carquet_byte_stream_split_decode_float(in, n, (float*)out, count) : which == 1 ? carquet_byte_stream_split_decode_double(in, n, (double*)out, count) : ((tl > 0 && tl <= 64) || tl <= 0 ? carquet_byte_stream_split_decode(in, n, tl, out, count) : CARQUET_ERROR_DECODE);
         if (st == CARQUET_OK) v_count("ok_returns"); else v_count("error_returns"); free(out); free(in); }
 }
 
 static void fam_dict(int64_t iters) {
-    for (int64_t i = 0; i < iters; i++) { int type = (int)vrng_below(&R, 4); size_t vs = type == 0 || type == 2 ? 4 : 8; int32_t dict_count = vrng_chance(&R, 1, 10) ? (int32_t)vrng_u64(&R) : (int32_t)vrng_below(&R, 40); size_t dn = vrng_chance(&R, 1, 3) ? vrng_below(&R, 200) : (dict_count > 0 && dict_count < 1000 ? (size_t)dict_count * vs : 16); uint8_t* dict = v_exact(dn); vrng_bytes(&R, dict, dn);
+    for (int64_t i = 0; i < iters; i++) { iter_begin(); int type = (int)vrng_below(&R, 4); size_t vs = type == 0 || type == 2 ? 4 : 8; int32_t dict_count = vrng_chance(&R, 1, 10) ? (int32_t)vrng_u64(&R) : (int32_t)vrng_below(&R, 40); size_t dn = vrng_chance(&R, 1, 3) ? vrng_below(&R, 200) : (dict_count > 0 && dict_count < 1000 ? (size_t)dict_count * vs : 16); uint8_t* dict = v_exact(dn); vrng_bytes(&R, dict, dn);
         int64_t count = rnd_count(); if (count > 5000) count = 5000; size_t n; uint8_t* in;
         if (i % 3 == 0) { int32_t nv = 1 + (int32_t)vrng_below(&R, 100); int32_t* v = v_exact((size_t)nv * 4); for (int k = 0; k < nv; k++) v[k] = (int32_t)vrng_below(&R, 9); carquet_buffer_t d, x; carquet_buffer_init(&d); carquet_buffer_init(&x); (void)carquet_dictionary_encode_int32(v, nv, &d, &x); in = mutate(x.data, x.size, &n); carquet_buffer_destroy(&d); carquet_buffer_destroy(&x); free(v); }
         else if (i % 3 == 1) { /* grammar: width byte 32 with indices near 2^31..2^32 */ n = 1 + 5 + 4 * 8; in = v_exact(n); in[0] = 32; in[1] = (uint8_t)((1 << 1) | 1); for (size_t k = 2; k < n; k++) in[k] = (uint8_t)vrng_u64(&R); for (size_t k = 5; k < n; k += 4) in[k] |= 0x80; if (vrng_chance(&R, 1, 2)) { in[1] = (uint8_t)(8 << 1); } }
@@ -156,7 +166,7 @@ static void fam_dict(int64_t iters) {
 
 static void fam_codec(int codec, int64_t iters) {
     static const char* nm[] = {"snappy_decompress", "lz4_decompress", "gzip_decompress", "zstd_decompress"}; CUR = nm[codec];
-    for (int64_t i = 0; i < iters; i++) { size_t n; uint8_t* in; size_t cap; int src = (int)(i % 3);
+    for (int64_t i = 0; i < iters; i++) { iter_begin(); size_t n; uint8_t* in; size_t cap; int src = (int)(i % 3);
         if (src == 0) { size_t sn = vrng_below(&R, 3000); uint8_t* s = v_exact(sn); for (size_t k = 0; k < sn; k++) s[k] = vrng_chance(&R, 1, 3) ? (uint8_t)vrng_u64(&R) : (uint8_t)('a' + (k % 7)); size_t bound = codec == 0 ? carquet_snappy_compress_bound(sn) : codec == 1 ? carquet_lz4_compress_bound(sn) : codec == 2 ? carquet_gzip_compress_bound(sn) : carquet_zstd_compress_bound(sn); uint8_t* c = v_exact(bound); size_t cn = 0;
             int st = codec == 0 ? carquet_snappy_compress(s, sn, c, bound, &cn) : codec == 1 ? carquet_lz4_compress(s, sn, c, bound, &cn) : codec == 2 ? carquet_gzip_compress(s, sn, c, bound, &cn, 6) : carquet_zstd_compress(s, sn, c, bound, &cn, 3); if (st != 0) cn = 0; in = mutate(c, cn, &n); cap = vrng_chance(&R, 1, 2) ? sn : vrng_below(&R, sn + 20); free(c); free(s); }
         else if (src == 1) { in = random_bytes(&n); cap = vrng_below(&R, 5000); }
@@ -167,7 +177,10 @@ static void fam_codec(int codec, int64_t iters) {
         free(out); free(in); leak_check(i); }
 }
 
+static const char* FAMS[12] = {"thrift", "rle", "bitpack", "plain", "delta", "dstr", "bss", "dict", "snappy", "lz4", "gzip", "zstd"};
+static void run_family(int id, int64_t it) { CUR_FAMID = id; FAM = FAMS[id]; switch (id) { case 0: fam_thrift(it); break; case 1: fam_rle(it); break; case 2: fam_bitpack(it); break; case 3: fam_plain(it); break; case 4: fam_delta(it); break; case 5: fam_dstr(it); break; case 6: fam_bss(it); break; case 7: fam_dict(it); break; default: fam_codec(id - 8, it); } }
 int main(int argc, char** argv) {
+    if (argc >= 3 && !strcmp(argv[1], "seeds")) { (void)carquet_init(); SEED_DIR = argv[2]; for (int id = 0; id < 12; id++) { SEEDS_DUMPED = 0; run_family(id, 240); } return 0; }
     if (argc < 4) return 2; FAM = argv[1]; uint64_t seed = strtoull(argv[2], 0, 10); int scale = atoi(argv[3]); vrng_seed(&R, seed * 48271 + v_hash(FAM, strlen(FAM), 3)); (void)carquet_init();
     int64_t it = scale >= 3 ? 6000000 : scale >= 2 ? 1500000 : 60000;
     if (!strcmp(FAM, "thrift")) fam_thrift(it / 2); else if (!strcmp(FAM, "rle")) fam_rle(it); else if (!strcmp(FAM, "bitpack")) fam_bitpack(it); else if (!strcmp(FAM, "plain")) fam_plain(it); else if (!strcmp(FAM, "delta")) fam_delta(it);
